@@ -1,9 +1,12 @@
 (* Eco/Github/Range.v — model of pkg/ecosystem/github/range.go *)
 From Verif.Base Require Import Bytes GoNum Ord.
+From Verif.Gen Require Operators.
 From Verif.Eco Require Import RangeCore.
 
 (* the alternation of constraintPattern ^(>=|<=|>|<|=)?(.+)$ in source order *)
-Definition github_ops : list bytes := [$">="; $"<="; $">"; $"<"; $"="].
+(* the list is generated from the Go source on every run (tools/gen -> Gen/Operators.v) *)
+Definition github_ops : list bytes :=
+  Eval cbv delta [Verif.Gen.Operators.github_ops] in Verif.Gen.Operators.github_ops.
 
 Definition cfg : range_cfg := {|
   rc_split := split_fields;
